@@ -1139,7 +1139,7 @@ pub fn run_c19_check(tier: &str, seed: u64, workers: u64, runs_override: Option<
     let findings = load_findings();
     let exe_b = std::path::PathBuf::from(format!("{}/target/b/release/adsim", VERIF_DIR));
     let exe_c = std::path::PathBuf::from(format!("{}/target/c/release/adsim-c19", VERIF_DIR));
-    let total = runs_override.unwrap_or(if quick { 40_000 } else { 3_000_000 });
+    let total = runs_override.unwrap_or(if quick { 60_000 } else { 3_000_000 });
     let diff_runs: u64 = if quick { 1600 } else { 40_000 };
     println!("VERIF_SEED={} property={} tier={} schedules={} differential_runs={} workers={}", seed, prop, tier, total, diff_runs, workers);
     let mut violations: Vec<(String, String)> = vec![];
